@@ -23,7 +23,10 @@ REQ = ["start_ev", "stop_ev", "start_direct", "stop_direct", "wait", "restart_fr
 
 
 def setup(part):
-    return stubs.boot("modes")
+    t = stubs.boot("modes")
+    t.machine.playfield.add_ball = lambda **kwargs: None
+    t.machine.ball_controller.num_balls_known = 3
+    return t
 
 
 def teardown(t):
@@ -112,6 +115,20 @@ def body(S, t, part):
             m.events.post("mrich_enable_later")
         elif rq == "switch_hit":
             m.switch_controller.process_switch("s_b", 1, logical=True)
+        elif rq == "game_start":
+            m.switch_controller.process_switch("s_start", 1, logical=True)
+            m.switch_controller.process_switch("s_start", 0, logical=True)
+            t.advance_time_and_run(1)
+            if m.game is None:
+                raise Violation("harness", "game_start", "game did not start")
+        elif rq == "game_end":
+            if m.game is not None:
+                m.game.end_game()
+                t.advance_time_and_run(2)
+        elif rq == "expect_active":
+            t.advance_time_and_run(1)
+            if not mode.active:
+                raise Violation("accepted-start-becomes-active", "Mode.start", "mode %s is not active 1 s after a start request made during a game (starting=%s); stream %s" % (name, mode.starting, stream))
         elif rq == "wait":
             pass
         gap = S.real("gap%d" % i, 0, 4)
@@ -124,6 +141,9 @@ def body(S, t, part):
                             "active_modes %s, modes that are active %s" % ([x.name for x in m.mode_controller.active_modes], [x.name for x in want]))
     # settle: whatever was requested must complete; then make sure the mode ends stopped
     t.advance_time_and_run(6)
+    if m.game is not None and part["mode"] == "mgame" and not mode.active and not mode.starting:
+        m.game.end_game()
+        t.advance_time_and_run(3)
     if mode.starting or mode.stopping:
         raise Violation("accepted-start-and-stop-complete", "Mode.start" if mode.starting else "Mode.stop",
                         "mode %s still %s 6 s after the last request; stream %s" % (name, "starting" if mode.starting else "stopping", stream))
@@ -136,6 +156,9 @@ def body(S, t, part):
     if mode.active or mode.stopping or mode.starting:
         raise Violation("accepted-start-and-stop-complete", "Mode.stop", "mode %s did not stop; stream %s" % (name, stream))
     t.advance_time_and_run(6)
+    if m.game is not None:
+        m.game.end_game()          # the game's own registrations are not the mode's: end it before comparing registries
+        t.advance_time_and_run(3)
     # stream grammar: (will_start starting started will_stop stopping stopped)*
     for j, e in enumerate(stream):
         if e != LIFE[j % 6]:
@@ -164,5 +187,8 @@ def scenarios(tier):
             firsts.append(["start_ev", "delayed_control", "stop_ev"])
         for f in firsts:
             parts.append(dict(mode=mode, reqs=f, n=len(f) + (2 if tier == "quick" else 3), alphabet=alpha))
+    galpha = ["start_ev", "stop_ev", "start_direct", "stop_direct", "wait"]
+    parts.append(dict(mode="mgame", reqs=["start_ev", "game_start", "start_ev", "expect_active"], n=5, alphabet=galpha))
+    parts.append(dict(mode="mgame", reqs=["game_start", "start_ev", "expect_active"], n=5 if tier == "quick" else 6, alphabet=galpha + ["game_end"]))
     pb = 80 if tier == "quick" else 400
     return [Scenario("script", setup, body, parts, teardown=teardown, part_budget=pb, per_path_timeout=60)]
